@@ -183,7 +183,7 @@ def install(real_mysql: bool = True, numpy: bool = False):
         try:
             from vlib.minimysql import driver as _drv  # noqa
             _drv.install()
-        except ImportError:
+        except Exception:   # engine E2 not built / not importable: checks that need it fail on their own
             pass
 
 
